@@ -214,15 +214,18 @@ impl ElementRaw {
 
         let mut cur_elem_opt = self.parent()?;
         while let Some(cur_elem) = &cur_elem_opt {
-            if let Some(name) = cur_elem
+            // the name and the parent are both read under the same timed lock; waiting for the lock of an
+            // ancestor without a limit could deadlock with an operation that descends from that ancestor
+            let cur_elem_locked = cur_elem
                 .0
                 .try_read_for(std::time::Duration::from_millis(10))
-                .ok_or(AutosarDataError::ParentElementLocked)?
-                .item_name()
-            {
+                .ok_or(AutosarDataError::ParentElementLocked)?;
+            if let Some(name) = cur_elem_locked.item_name() {
                 path_components.push(name);
             }
-            cur_elem_opt = cur_elem.parent()?;
+            let next_elem_opt = cur_elem_locked.parent()?;
+            drop(cur_elem_locked);
+            cur_elem_opt = next_elem_opt;
         }
         path_components.push(String::new());
         path_components.reverse();
